@@ -4,6 +4,7 @@ package main
 
 import (
 	"fmt"
+	"sync"
 	"go/constant"
 	"go/types"
 	"sort"
@@ -490,6 +491,23 @@ func (e *Env) ident(name string) (TV, error) {
 				continue
 			}
 			srt, known := e.fr.letSorts[name]
+			if !known {
+				// bound by a call that is translated later (a return that
+				// precedes it in block order): use the sort recorded by an
+				// earlier pass, or ask for another pass
+				if li, ok := lookupLetInfo(e.vc.fname, name); ok {
+					srt, known = li.sort, true
+					if e.fr.letTypes == nil {
+						e.fr.letTypes = map[string]types.Type{}
+						e.fr.letSorts = map[string]Sort{}
+					}
+					e.fr.letTypes[name], e.fr.letSorts[name] = li.typ, li.sort
+				} else if e.vc.letPending < 3 {
+					e.vc.letPending++
+					e.vc.newHeaps = true
+					return TV{e.vc.fresh("deadlet:"+name, SInt), nil}, nil
+				}
+			}
 			if !known {
 				// no call that binds the name precedes this clause: the call
 				// the name was written for is gone (reported like any other
@@ -1235,4 +1253,27 @@ func (e *Env) lookupGoFunc(name string) *ssa.Function {
 		return nil
 	}
 	return sp.Func(fname)
+}
+
+// letInfo remembers sort and type of the names bound by "at call ... let"
+// across the passes over one function.
+type letInfo struct {
+	sort Sort
+	typ  types.Type
+}
+
+var letInfoMu sync.Mutex
+var letInfoCache = map[string]letInfo{}
+
+func lookupLetInfo(fname, name string) (letInfo, bool) {
+	letInfoMu.Lock()
+	defer letInfoMu.Unlock()
+	li, ok := letInfoCache[fname+"\x00"+name]
+	return li, ok
+}
+
+func recordLetInfo(fname, name string, srt Sort, typ types.Type) {
+	letInfoMu.Lock()
+	defer letInfoMu.Unlock()
+	letInfoCache[fname+"\x00"+name] = letInfo{srt, typ}
 }
